@@ -1,6 +1,7 @@
 package main
 
 import (
+	"go/constant"
 	"fmt"
 	"go/ast"
 	"go/token"
@@ -214,6 +215,15 @@ func ruleValCons(c *Ctx) {
 				}
 			}
 		}
+		body := cc.Body
+		if lineObj == nil {
+			// the read happens in a helper that calls the function literal given here with the line: the literal's
+			// parameter is the line
+			if _, lit := getlineDelegate(c, vm, cc); lit != nil && len(lit.Type.Params.List) == 1 && len(lit.Type.Params.List[0].Names) == 1 {
+				lineObj = info.Defs[lit.Type.Params.List[0].Names[0]]
+				body = lit.Body.List
+			}
+		}
 		if lineObj == nil {
 			c.undecided("getline-line:"+cl, cc.Pos(), "line result of p.getline not found in %s", cl)
 			continue
@@ -221,7 +231,7 @@ func ruleValCons(c *Ctx) {
 		bad := ""
 		uses := 0
 		var stack []ast.Node
-		ast.Inspect(&ast.BlockStmt{List: cc.Body}, func(n ast.Node) bool {
+		ast.Inspect(&ast.BlockStmt{List: body}, func(n ast.Node) bool {
 			if n == nil {
 				stack = stack[:len(stack)-1]
 				return true
@@ -294,9 +304,69 @@ func ruleValCons(c *Ctx) {
 					return true
 				}
 				sig := f.Type().(*types.Signature)
+				direct := false
 				for i := 0; i < sig.Params().Len(); i++ {
 					if sl, ok := sig.Params().At(i).Type().Underlying().(*types.Slice); ok && isNamed(sl.Elem(), modPath+"/interp", "value") {
 						printWriters["interp."+f.Name()] = true
+						direct = true
+					}
+				}
+				if !direct {
+					// the opcode's work moved into a helper that takes the arguments off the stack itself: what that
+					// helper hands the argument list to - on the branches it can take with the boolean constants
+					// passed here (a helper shared with printf takes a flag)
+					for _, hd := range c.allFuncDecls("interp") {
+						if info.Defs[hd.Name] != types.Object(f) || hd.Body == nil {
+							continue
+						}
+						bind := map[types.Object]bool{}
+						pi := 0
+						for _, fl := range hd.Type.Params.List {
+							for _, nm := range fl.Names {
+								if pi < len(call.Args) {
+									if tv, ok := info.Types[call.Args[pi]]; ok && tv.Value != nil && tv.Value.Kind() == constant.Bool {
+										bind[info.Defs[nm]] = constant.BoolVal(tv.Value)
+									}
+								}
+								pi++
+							}
+						}
+						var visit func(n ast.Node)
+						visit = func(n ast.Node) {
+							ast.Inspect(n, func(m ast.Node) bool {
+								if is, ok := m.(*ast.IfStmt); ok {
+									cond, neg := is.Cond, false
+									if u, ok := cond.(*ast.UnaryExpr); ok && u.Op == token.NOT {
+										cond, neg = u.X, true
+									}
+									if id, ok := cond.(*ast.Ident); ok {
+										if b, ok := bind[info.Uses[id]]; ok {
+											if is.Init != nil {
+												visit(is.Init)
+											}
+											if b != neg {
+												visit(is.Body)
+											} else if is.Else != nil {
+												visit(is.Else)
+											}
+											return false
+										}
+									}
+								}
+								if c2, ok := m.(*ast.CallExpr); ok {
+									if g := calleeOf(info, c2); g != nil && g.Pkg() == p.Types {
+										gs := g.Type().(*types.Signature)
+										for i := 0; i < gs.Params().Len(); i++ {
+											if sl, ok := gs.Params().At(i).Type().Underlying().(*types.Slice); ok && isNamed(sl.Elem(), modPath+"/interp", "value") {
+												printWriters["interp."+g.Name()] = true
+											}
+										}
+									}
+								}
+								return true
+							})
+						}
+						visit(hd.Body)
 					}
 				}
 				return true
@@ -399,6 +469,45 @@ func ruleValCons(c *Ctx) {
 						want = "p." + ofmt.Name()
 						strCallers["<print writer>"] = arg
 						break
+					}
+					// the format comes in as a parameter and every call of this function passes the CONVFMT setting: the
+					// conversion is toString's, written where the interpreter is not at hand (a method of value)
+					if id, ok := x.Args[0].(*ast.Ident); ok {
+						pidx, i := -1, 0
+						for _, fl := range fd.Type.Params.List {
+							for _, nm := range fl.Names {
+								if info.Defs[nm] == info.Uses[id] {
+									pidx = i
+								}
+								i++
+							}
+						}
+						if pidx >= 0 {
+							nSites, all := 0, true
+							for _, hd := range c.allFuncDecls("interp") {
+								if hd.Body == nil {
+									continue
+								}
+								ast.Inspect(hd.Body, func(m ast.Node) bool {
+									c2, ok := m.(*ast.CallExpr)
+									if !ok {
+										return true
+									}
+									if g := calleeOf(info, c2); g != nil && info.Defs[fd.Name] == types.Object(g) && pidx < len(c2.Args) {
+										nSites++
+										a2, ok := c2.Args[pidx].(*ast.SelectorExpr)
+										if !ok || info.Uses[a2.Sel] != convfmt {
+											all = false
+										}
+									}
+									return true
+								})
+							}
+							if nSites > 0 && all {
+								c.ok("str-caller:"+fname, x.Pos(), "%s calls value.str with a format parameter that is the CONVFMT setting at each of its %d call site(s)", fname, nSites)
+								return true
+							}
+						}
 					}
 					c.bad("str-caller:"+fname, x.Pos(), "%s converts a number to a string by calling value.str(%s) directly: conversions must go through interp.toString (CONVFMT); only print uses OFMT", fname, arg)
 					return true
@@ -744,7 +853,7 @@ func ruleNumParse(c *Ctx) {
 	// letter in the text): every path must accept (return a nil error)
 	recAccepts := false
 	if sf, ipkg := c.ssaFunc("interp", "parseFloat"), c.ssaPkg("interp"); sf != nil && ipkg != nil {
-		e := &sengine{pkg: ipkg}
+		e := &sengine{pkg: ipkg, ctx: c}
 		e.call = func(p *spath, fr *sframe, call *ssa.Call, callee *ssa.Function, args []iv) (iv, callAction) {
 			fo := calleeObj(call)
 			if fo == nil {
